@@ -72,6 +72,39 @@ theorem C10_captured_record_reparses (b : Bytes) (r : Record) (rest : Bytes) (h 
     (rest' : Bytes) : parse1 (Wire.tag r.num r.wire ++ r.raw ++ rest') = some (r, rest') :=
   selfParsing_of_parse1 h rest'
 
+/-- "the captured bytes are exactly those fields in their original order", at full strength: for
+ANY accepted input, known and unknown fields interleaved in any way, the captured bytes are the
+unknown records (minimal tag ++ original value bytes) in input order, nothing else -/
+theorem C10_capture_exact_mixed (S : Schema) (id : Nat) (hc : (S.msg id).capture = true) (n : Nat) (b : Bytes)
+    (rs : List Record) (hr : records n b = some rs) (slots : List Val) (u0 : Bytes) (v : Val)
+    (h : specUnmarshal S id b (.msg slots u0) = some v) :
+    ∃ slots', v = .msg slots' (u0 ++ ((unknownOf S id rs).map fun r => Wire.tag r.num r.wire ++ r.raw).flatten) :=
+  capture_exact_mixed S id hc n b rs hr slots u0 v h
+
+/-- … and those bytes tokenize into exactly those records again: the unknown fields are forwarded intact -/
+theorem C10_captured_bytes_records (S : Schema) (id : Nat) (n : Nat) (b : Bytes) (rs : List Record)
+    (hr : records n b = some rs) :
+    records ((unknownOf S id rs).length + 1)
+      ((unknownOf S id rs).map fun r => Wire.tag r.num r.wire ++ r.raw).flatten = some (unknownOf S id rs) :=
+  captured_bytes_records S id n b rs hr
+
+/-- FORWARDING CHAIN, any capturing intermediary (it may know any subset of the fields): the
+re-marshalled bytes are the canonical encoding of its known part followed by the captured records,
+and a receiver that accepts the known part then applies exactly the sender's records the
+intermediary did not know, in the sender's order. (What is NOT proved in general: that the known
+part, re-encoded canonically, decodes at the receiver like the sender's known records did — the
+value-level round trip relative to two message types; see `C10_forwarder_chain_partial` for the
+case without a known part, and stream M for the rest.) -/
+theorem C10_chain_unknown_part (S : Schema) (idN idW : Nat) (hc : (S.msg idN).capture = true) (n : Nat) (b : Bytes)
+    (rs : List Record) (hr : records n b = some rs) (slots : List Val) (v : Val)
+    (h : specUnmarshal S idN b (.msg slots []) = some v) :
+    ∃ slots', v = .msg slots' ((unknownOf S idN rs).map fun r => Wire.tag r.num r.wire ++ r.raw).flatten ∧
+      specEnc S idN v = sortChunks (encSlots S (S.msg idN).fields slots')
+        ++ ((unknownOf S idN rs).map fun r => Wire.tag r.num r.wire ++ r.raw).flatten ∧
+      ∀ mW m1, specUnmarshal S idW (sortChunks (encSlots S (S.msg idN).fields slots')) mW = some m1 →
+        specUnmarshal S idW (specEnc S idN v) mW = Perm.foldSteps S idW (unknownOf S idN rs) m1 :=
+  chain_unknown_part S idN idW hc n b rs hr slots v h
+
 /-- FORWARDING CHAIN, partial: sender → intermediary → receiver for an intermediary whose message
 type captures unrecognized fields and knows none of the sender's fields (a pure forwarder). For
 EVERY well-formed input `b`, every receiver type `idW` and start value: the forwarder decodes `b`,
@@ -142,6 +175,8 @@ example : (S1.msg 0).capture = false ∧ (S1.msg 1).capture = true := by decide 
 and a sender input holding a varint field with a non-minimal tag, a group and a fixed32 field -/
 def S3 : Schema := S1 ++ [⟨[], true, false⟩]
 example : (S3.msg 2).fields = [] ∧ (S3.msg 2).capture = true ∧ S3.supported = true := by decide +kernel
+example : (specUnmarshal S1 1 [8, 5, 0x78, 1, 8, 6] (.msg [.num 0] [])).isSome = true ∧ (S1.msg 1).capture = true ∧
+    unknownOf S1 1 [⟨1, 0, [5]⟩, ⟨15, 0, [1]⟩, ⟨1, 0, [6]⟩] = [⟨15, 0, [1]⟩] := by decide +kernel
 example : records 4 [0xf8, 0x80, 0x00, 1, 0x7b, 8, 1, 0x7c, 0xa5, 6, 1, 2, 3, 4] =
     some [⟨15, 0, [1]⟩, ⟨15, 3, [8, 1, 0x7c]⟩, ⟨100, 5, [1, 2, 3, 4]⟩] := by decide +kernel
 
